@@ -119,6 +119,79 @@ def inline_contracts(state, cfg, doc):
     return {"sig": tuple((t.type, tuple((c.type, c.level) for c in (t.children or []))) for t in toks), "fail": fails}
 
 
+# ---------------------------------------------------------------------------- delimiter pipeline contracts at run time
+DELIM_FUNCS = [("markdown_it.rules_inline.balance_pairs", "processDelimiters", "contracts.delims"),
+               ("markdown_it.rules_inline.emphasis", "_postProcess", "contracts.emph"),
+               ("markdown_it.rules_inline.strikethrough", "_postProcess", "contracts.emph")]
+INLINE_RULE_FUNCS = [("markdown_it.rules_inline.emphasis", "tokenize", "emphasis", "contracts.inline2"),
+                     ("markdown_it.rules_inline.strikethrough", "tokenize", "strikethrough", "contracts.inline2"),
+                     ("markdown_it.rules_inline.newline", "newline", "newline", "contracts.inline2")]
+
+
+def delim_contracts(state, cfg, doc):
+    """requires/ensures of processDelimiters, emphasis._postProcess, strikethrough._postProcess and of the emphasis /
+    strikethrough / newline tokenizers evaluated natively on every call made while parsing doc: validates that each
+    function's callers establish what its contract assumes (the inter-procedural step pyvc does not prove)"""
+    md = _md(state, cfg)
+    log = []
+    saved = []
+    try:
+        for modname, fname, cmod in DELIM_FUNCS:
+            m = importlib.import_module(modname)
+            C = importlib.import_module(cmod)
+            q = f"{modname}.{fname}"
+            mon = Monitor(C.REGISTRY[q], C.SPECFUNS)
+            real = getattr(m, fname)
+
+            def wrapper(st, delimiters, _mon=mon, _real=real, _q=q):
+                outcome, val, failed, pre_ok = _mon.call(_real, {"state": st, "delimiters": delimiters})
+                for kind, label in failed:
+                    log.append((_q, kind, label))
+                if outcome == "precondition-false":
+                    return _real(st, delimiters)
+                if outcome == "raised":
+                    raise val
+                return val
+
+            saved.append((m, fname, real))
+            setattr(m, fname, wrapper)
+        rules = {r.name: r for r in md.inline.ruler.__rules__}
+        saved_rules = []
+        for modname, fname, rname, cmod in INLINE_RULE_FUNCS:
+            r = rules.get(rname)
+            if r is None:
+                continue
+            C = importlib.import_module(cmod)
+            q = f"{modname}.{fname}"
+            mon = Monitor(C.REGISTRY[q], C.SPECFUNS)
+            real = r.fn
+
+            def rwrapper(st, silent, _mon=mon, _real=real, _q=q):
+                if not (0 <= st.pos < st.posMax):
+                    return _real(st, silent)
+                outcome, val, failed, pre_ok = _mon.call(_real, {"state": st, "silent": silent})
+                for kind, label in failed:
+                    log.append((_q, kind, label))
+                if outcome == "precondition-false":
+                    return _real(st, silent)
+                if outcome == "raised":
+                    raise val
+                return val
+
+            saved_rules.append((r, real))
+            r.fn = rwrapper
+        md.inline.ruler.__cache__ = None
+        toks = md.parse(doc)
+    finally:
+        for m, fname, real in saved:
+            setattr(m, fname, real)
+        for r, real in saved_rules:
+            r.fn = real
+        md.inline.ruler.__cache__ = None
+    fails = [{"what": f"{q} {kind} {label}", "key": f"{q}/{kind}/{label}"} for q, kind, label in log]
+    return {"sig": tuple((t.type, tuple((c.type, c.level) for c in (t.children or []))) for t in toks), "fail": fails}
+
+
 # ---------------------------------------------------------------------------- C11: Ruler histories
 def _ruler_ref_filter(rules, chain):
     return [r.fn for r in rules if r.enabled and (chain == "" or chain in r.alt)]
